@@ -3,6 +3,8 @@
 def _has(recs, ev, n=1):
     return sum(1 for r in recs if r.get("ev") == ev) >= n
 
+NOT_APPLICABLE = {}
+
 def _evictions(recs):
     """count Create events after which a previously live key disappeared"""
     n, live = 0, set()
